@@ -155,6 +155,14 @@ claim(
     "DESIGN.md §3 C09",
 )
 
+claim(
+    "C17",
+    "Generated closed-loop histories: Hypothesis-drawn initial conditions, heading set-points and mode, each simulated for 20-30 s (controller functions wired as in scripts/rdd2_sim.py, plant integrated by a harness-side RK4) with invariants over the whole trajectory (finite, motors within limits, position/attitude/rate/heading settle, error decays)",
+    "Exploration: 64 (quick) / 1600 (thorough) runs per cascade over initial positions within 3 m, tilts up to 60 degrees about random axes with quaternions of either sign, velocities and body rates of order 1 and commanded headings in (-pi, pi]; bounded-horizon statement of convergence (0.05 m over the last 2 s, tilt and rate <= 0.02, heading <= 0.05 rad).",
+    "The controller sees the true state; constant hover set-point. One recorded finding (log-linear cascade with |heading set-point| > 0.3 rad does not converge) is excluded by input class and reported as KNOWN-FINDING; the same cascade at |heading| <= 0.3 rad and the position_control cascade at all headings are checked. Failing runs are not shrunk.",
+    "DESIGN.md §3 C17",
+)
+
 NOT_YET = "check not built yet in this round (work in progress; see DESIGN.md)"
 
 
